@@ -219,6 +219,12 @@ def scenarios(algs):
     out.append(('dbfault-first-job', [('orgall', None, 'all'), ('dbfail',), ('disp',), ('disp',),
                                       ('pump', 'success', None)]))
     out.append(('waiters', [('orgall', None, 'all'), ('waiters',), ('pump', 'success', None), ('joinwaiters',)]))
+    # the waiters start while units are executing on real farm hands (doing and crew are not empty)
+    out.append(('waiters-with-crew', [('workers', 3), ('orgall', None, 'all'), ('disp',), ('waiters',),
+                                      ('pump', 'success', None), ('joinwaiters',)]))
+    out.append(('waiters-with-crew-history-fault',
+                [('workers', 3), ('orgall', None, 'all'), ('disp',), ('waiters',), ('chronfail',),
+                 ('reply0', 'success'), ('pump', 'success', None), ('joinwaiters',)]))
     # a database fault inside dispatch (db.next raises): monitors only
     roots = [i for i in range(n) if not up[i]]
     for r_ in roots[:2]:
@@ -252,6 +258,8 @@ class Run:
         self.put = set()        # units for which farm._put queued a task message since their release
         self.fault_tick = False
         self.tick_puts = []     # task messages farm._put queued during the current dispatch tick
+        self.hands = []
+        self.chron_fault = False
         self.waiter_threads = []
         F = env.F
         orig_put = F._put.__wrapped__ if hasattr(F._put, '__wrapped__') else F._put
@@ -426,6 +434,29 @@ class Run:
             values = [(v, v in news) for v in self.vals_of(tag)]
         was_inflight = (tag, t) in self.inflight
         self.put.discard((tag, t))
+        if self.chron_fault:
+            # infrastructure fault while the result is booked: the exception leaves Hand._res; whatever the
+            # scheduler did before it stays; the reply itself is not judged
+            self.chron_fault = False
+            import dawgie.pl.logger.chronicle as chronicle
+            keep = chronicle.append
+
+            def broken(_e):
+                raise NotADirectoryError('injected: chronicle not writable')
+
+            chronicle.append = broken
+            try:
+                env.reply(tag, t, outcome, rid, values)
+            except NotADirectoryError:
+                pass
+            finally:
+                chronicle.append = keep
+            if was_inflight:
+                self.inflight.remove((tag, t))
+                self.purged.discard((tag, t))
+            self.trace.append(['reply', tag, t, outcome, sorted(news), nonempty])
+            self.after('fault')
+            return
         n_chron = env.reply(tag, t, outcome, rid, values)
         after = env.snapshot()
         self.trace.append(['reply', tag, t, outcome, sorted(news), nonempty])
@@ -763,6 +794,32 @@ def compare(res, env, run, out, case):
             return
 
 
+def special_op(env, run, want, op):
+    """fault injections and waiter threads (recorded in the trace so that replays repeat them)"""
+    kind = op[0]
+    run.trace.append(list(op))
+    if kind == 'waiters':
+        if 'C04' in want:
+            run.start_waiters()
+    elif kind == 'joinwaiters':
+        if 'C04' in want:
+            run.join_waiters()
+    elif kind == 'dbfail':
+        run.no_model = True
+        env.fail_next_db = True
+    elif kind == 'workers':
+        # real farm hands on fake transports: dispatch hands messages over and farm._busy is exercised
+        run.no_model = True
+        for _k in range(op[1]):
+            h = env.new_worker()
+            env.send_to_hand(h, env.M.make(typ=env.M.Type.register, inc=1, rev=env.dawgie.context.git_rev))
+            run.hands.append(h)
+    elif kind == 'chronfail':
+        # the next history write fails (unwritable chronicle): monitors only
+        run.no_model = True
+        run.chron_fault = True
+
+
 def run_history(env, res, want, algs, ops, r, lines, pending, tag):
     env.fresh()
     run = Run(env, res, want, algs)
@@ -795,15 +852,8 @@ def run_history(env, res, want, algs, ops, r, lines, pending, tag):
                     run.do_reply(x, t, 'success', run.vals_of(x))
                 else:
                     run.do_reply(x, t, op[3], [])
-        elif kind == 'waiters':
-            if 'C04' in want:
-                run.start_waiters()
-        elif kind == 'joinwaiters':
-            if 'C04' in want:
-                run.join_waiters()
-        elif kind == 'dbfail':
-            run.no_model = True
-            env.fail_next_db = True
+        elif kind in ('waiters', 'joinwaiters', 'dbfail', 'workers', 'chronfail'):
+            special_op(env, run, want, op)
         elif kind == 'disp':
             run.do_dispatch()
         elif kind == 'reply':
@@ -1023,5 +1073,10 @@ def replay_case(rep, res, want):
                 run.do_defer([tuple(p) for p in op[1]])
             elif op[0] == 'pause':
                 run.do_pause(op[1])
+            elif op[0] in ('waiters', 'joinwaiters', 'dbfail', 'workers', 'chronfail'):
+                special_op(env, run, want, op)
+                run.trace.pop()
+        if run.waiter_threads:
+            run.join_waiters()
     finally:
         env.close()
